@@ -147,6 +147,8 @@ class Engine:
                 self._report(info, rep, proj, bads, out, ans, why, var, pre_t, tags, recv_slot, res_slot)
                 continue
             self.by_out[out.split(":")[0]] = self.by_out.get(out.split(":")[0], 0) + 1
+            if name in ("json_roundtrip", "copy") and res is not None:
+                self._same_graph(name, g, res, info, rep, pre_t)
             if chosen_ok:
                 old = self.reps.get(post_t)
                 if old is None:
@@ -225,6 +227,32 @@ class Engine:
         if alt["out"] == "ans" and interp.spec_answer(alt["ans"]) != interp.spec_answer(info["ans"]):
             return False
         return True
+
+    def _same_graph(self, name, g, res, info, rep, pre_t):
+        """the result of a JSON round trip / copy compares equal to the source and has its hash"""
+        prop = {"json_roundtrip": "C15", "copy": "C10"}[name]
+        self.same_graph_checks = getattr(self, "same_graph_checks", 0) + 1
+        try:
+            eq = (g == res) and (res == g)
+            hs = (hash(g) == hash(res))
+        except Exception as e:
+            import traceback
+            tb = traceback.format_exc(limit=-3)
+            if "in reactant" in tb or "in product" in tb or "in _ts" in tb or "KeyError" in tb:
+                return      # ill-formed reaction side / dangling descriptor: == may refuse (see spec)
+            self.on_failure(Failure("same-graph", {prop}, f"{name}|eq-or-hash-raises|{type(e).__name__}",
+                                    f"comparing a graph with its {name} result raised {type(e).__name__}",
+                                    {"pre": json.loads(pre_t), "history": rep.hist, "traceback": tb}))
+            return
+        if type(res) is not type(g):
+            self.on_failure(Failure("same-graph", {prop}, f"{name}|class-changed", f"{name} changed the class of the graph",
+                                    {"pre": json.loads(pre_t)}))
+        elif not eq:
+            self.on_failure(Failure("same-graph", {prop}, f"{name}|result-unequal", f"the {name} result compares unequal to its source",
+                                    {"pre": json.loads(pre_t), "history": rep.hist}))
+        elif not hs:
+            self.on_failure(Failure("same-graph", {prop}, f"{name}|result-hash-differs", f"the {name} result has a different hash",
+                                    {"pre": json.loads(pre_t), "history": rep.hist}))
 
     def _eq_hash(self, old, objs, info, rep, post_t, tags):
         """two real objects standing for one abstract state: == and equal hash."""
